@@ -97,9 +97,10 @@ theorem enterCommand_def (cfg : Cfg) (st : AggState) (cmd : Cmd)
 
 theorem enterCommand_claim (cfg : Cfg) (st : AggState) (consumed : Bool) (cmd : Cmd) (ref : AwaitRef)
     (h : asciiLower cmd.name = lit "function" ∨ asciiLower cmd.name = lit "macro")
-    (ha : st.awaiting = some ref) :
+    (ha : st.awaiting = some ref) (hc : consumed = false := by rfl) :
     enterCommand cfg st consumed cmd =
       .ok (claimDefinition cfg st ref (asciiLower cmd.name = lit "macro") cmd) := by
+  subst hc
   unfold enterCommand
   rcases h with h | h <;> simp (decide := true) [h, ha]
 
